@@ -204,7 +204,13 @@ def c02_post(ctx, dtw, fname, ndim, cstyle, label="C02"):
             if not cstyle and pykw.get("max_length_diff") == 0 and pykw.get("max_length_diff") is not None:
                 # model of known finding KF-C02-1: the C settings cannot express "limit 0" (0 encodes "off")
                 try:
-                    extra["python_with_the_limit_off"] = float(py_reference(dtw, s1, s2, dict(pykw, max_length_diff=None), nd))
+                    m_ = py_reference(dtw, s1, s2, dict(pykw, max_length_diff=None), nd)
+                    if m_ is None:
+                        # the threshold sits within rounding of the distance: either outcome of the cut is legitimate
+                        k_ = {k__: v__ for k__, v__ in pykw.items() if k__ not in ("max_dist", "use_pruning", "max_length_diff")}
+                        m_ = py_reference(dtw, s1, s2, k_, nd)
+                        extra["threshold_within_rounding_of_the_distance"] = True
+                    extra["python_with_the_limit_off"] = float(m_)
                 except Exception:
                     pass
             ctx.violation("engine-mismatch", prop=label, fn=fname, s1=l1, s2=l2, settings=dict(settings_key(pykw)),
